@@ -422,6 +422,9 @@ RULE += _R6["C36"]
 from vmc.tables import _ROUND7 as _R7  # noqa: E402
 
 RULE += _R7["C36"]
+from vmc.tables import _ROUND8 as _R8  # noqa: E402
+
+RULE += _R8["C36"]
 
 
 
